@@ -191,8 +191,29 @@ where
     if si.end.to_bits() != seg.end.to_bits() || !nums_eq(&si.poly.coeffs(), &ic) {
         fail!("Segment::indefinite: {:?} differs from end {} / piece-level {:?}", si, hex(seg.end), ic);
     }
-    if sk.end.to_bits() != seg.end.to_bits() || !nums_eq(&sk.poly.coeffs(), &fc) {
-        fail!("Segment::integral(knot): {:?} differs from end {} / piece-level {:?}", sk, hex(seg.end), fc);
+    // Segment::integral(knot): the SAME clauses as for the bare polynomial (end kept; a vertical shift of the
+    // indefinite integral; through the knot within the same bound) - not bit-identity with the piece-level call,
+    // which the property does not state (the constant may legitimately be rounded differently)
+    let skc = sk.poly.coeffs();
+    if sk.end.to_bits() != seg.end.to_bits() || skc.len() != fc.len() || !nums_eq(&skc[1..], &ic[1..]) {
+        fail!("Segment::integral(knot): {:?} does not keep the end {} / is not a vertical shift of the indefinite integral {:?}", sk, hex(seg.end), ic);
+    }
+    if in_dom(knot.x) && y_ok && !subnormal_q {
+        let xd = d(knot.x);
+        let fx = poly_exact(&skc, &xd);
+        let s_i = poly_abs(&ic, &xd);
+        let bound = u().mul(&d(knot.y).abs().add(&s_i)).mul_u64(kq + 2);
+        ctx.comparisons += 1;
+        if !skc[0].is_finite() || !d(0.0).add(&fx).sub(&d(knot.y)).abs().le(&bound) {
+            fail!(
+                "Segment<Poly{n}>{c:?}.integral(knot=({}, {})) = {:?}: its exact value at knot.x is {} instead of knot.y (allowed deviation {})",
+                hex(knot.x), hex(knot.y), skc, fx.show(), bound.show()
+            );
+        }
+    } else if !nums_eq(&skc, &fc) {
+        // outside the value domain nothing but "same construction as the piece" can be judged; a difference there
+        // is only labelled
+        ctx.label("Segment::integral differs from piece-level outside the value domain");
     }
     Outcome::Pass
 }
@@ -203,7 +224,7 @@ impl Prop for C07 {
         "C07"
     }
     fn rule(&self) -> String {
-        "case = (degree 0..=7 uniform, coefficient vector with cancellation patterns / wide exponents, all ordinates (coefficients and knot.y) times a common power of two 2^k, k=0 in 70% of cases else uniform in ±300, knot (x of any sign and magnitude incl. ±0 and subnormals, y any), evaluation points a,b, segment end; 1 case in 13 plants an exact relation: small-integer data with knot.y equal to plus or minus the indefinite integral at knot.x, or 0). Oracle: indefinite(): constant 0, coefficient i+1 within one ulp of c_i/(i+1) (bit-exact for divisors 1,2,4,8); integral(knot): same non-constant coefficients bit for bit, exact value of the returned polynomial at knot.x within (4(m+2)+2)u(|y|+S_I(x)) of knot.y, and the same through evaluate; F(b)-F(a) (library evaluate, difference taken exactly) vs the 384-bit integral Σc_i(b^(i+1)-a^(i+1))/(i+1); integral(k).derivative() coefficient-wise within one ulp of p; Segment::{indefinite,integral} bit-identical to the piece-level call with end kept. Value clauses judged only when every term is within 2^±900 (else labelled). Non-trivial: degree>=1, >=2 non-zero coefficients, knot != (2,5).".into()
+        "case = (degree 0..=7 uniform, coefficient vector with cancellation patterns / wide exponents, all ordinates (coefficients and knot.y) times a common power of two 2^k, k=0 in 70% of cases else uniform in ±300, knot (x of any sign and magnitude incl. ±0 and subnormals, y any), evaluation points a,b, segment end; 1 case in 13 plants an exact relation: small-integer data with knot.y equal to plus or minus the indefinite integral at knot.x, or 0). Oracle: indefinite(): constant 0, coefficient i+1 within one ulp of c_i/(i+1) (bit-exact for divisors 1,2,4,8); integral(knot): same non-constant coefficients bit for bit, exact value of the returned polynomial at knot.x within (4(m+2)+2)u(|y|+S_I(x)) of knot.y, and the same through evaluate; F(b)-F(a) (library evaluate, difference taken exactly) vs the 384-bit integral Σc_i(b^(i+1)-a^(i+1))/(i+1); integral(k).derivative() coefficient-wise within one ulp of p; Segment::indefinite bit-identical to the piece-level call with end kept (constant 0, same quotients); Segment::integral(knot): end kept, vertical shift of the indefinite integral, through the knot within the same bound. Value clauses judged only when every term is within 2^±900 (else labelled). Non-trivial: degree>=1, >=2 non-zero coefficients, knot != (2,5).".into()
     }
     fn cases(&self, tier: Tier) -> u64 {
         tier.pick(800_000, 12_000_000)
